@@ -194,6 +194,10 @@ func readCurrentRegex(filePath string, ruleId string, chainOffset uint8) string 
 	var line []byte
 	foundRule := false
 	chainCount := uint8(0)
+	// only follow the chain of the rule: the next SecRule belongs to the
+	// rule if the actions of the previous one contain `chain`
+	chainActionRegex := regexp.MustCompile(`(?:^|[\s,"])chain(?:[\s,"\\]|$)`)
+	chained := false
 	for index, line = range lines {
 		if !foundRule && idRegex.Match(line) {
 			foundRule = true
@@ -201,10 +205,18 @@ func readCurrentRegex(filePath string, ruleId string, chainOffset uint8) string 
 				index--
 				break
 			}
+			chained = chainActionRegex.Match(line)
 			continue
 		}
 		if foundRule && regex.SecRuleRegex.Match(line) {
+			if !chained {
+				// the chain ends before the requested offset
+				break
+			}
+			chained = false
 			chainCount++
+		} else if foundRule && chainActionRegex.Match(line) {
+			chained = true
 		}
 		if foundRule && chainCount == chainOffset {
 			break
